@@ -38,7 +38,7 @@ MANIFEST = {
     "technique": "exhaustive exploration of the nondeterministic choice (set iteration order) under a controlled scheduler, plus enumerated-seed conformance runs and exhaustive listing-order permutations",
 }
 MANIFEST["text"] += " " + (
-    'Added after the seeding waves: a deviation-bounded family of listing orders (identity, reversal, rotations, adjacent transpositions; neighbour lists reversed) on the named graphs, width-1 configurations, the fork8 graph with observations on its symmetry axis (exact ties inside a non-emitting run).')
+    'Added after the seeding waves: a deviation-bounded family of listing orders (identity, reversal, rotations, adjacent transpositions; neighbour lists reversed) on the named graphs, width-1 configurations, the fork8 graph with observations on its symmetry axis (exact ties inside a non-emitting run). Part 3 (a used matcher / map object): after EVERY history of depth <= 2 over {match prefix, extend, widen, continue_with_distance, match another trace} on a matcher whose map object served all earlier histories, a plain match(trace) must return the result and leave the complete lattice snapshot of a fresh matcher on a freshly built map (in-memory and SQLite).')
 BUDGET = {"quick": 420, "thorough": 3000}
 RULE = ("states = (input, schedule) executions, transitions = iterations of a shadowed set that were given an explicit order, traces "
         "validated = inputs whose result was compared across fresh interpreters with different hash seeds; non-trivial = some "
@@ -164,6 +164,13 @@ def cases(tier):
         yield {"kind": "listing", "gs": list(gs), "tier": tier}
     for name, pos, g in ms.special_graphs():
         yield {"kind": "listing", "gs": ms.explicit(g), "pos": pos, "name": name, "tier": tier, "bounded": True}
+    for gs in ms.graph_slice("n3" if tier == "quick" else "n4e3"):
+        if gs[1] >= 3 and al.nedges(gs[2]) >= 3 and (gs[0] == "GENERIC" or tier == "thorough"):
+            yield {"kind": "reuse", "gs": list(gs)}
+            if al.nedges(gs[2]) == 3:
+                yield {"kind": "reuse", "gs": list(gs), "backend": "sqlite"}
+    for name, pos, g in ms.special_graphs():
+        yield {"kind": "reuse", "gs": ms.explicit(g), "pos": pos, "name": name}
     nsh = 8
     for j in range(nsh):
         yield {"kind": "seeds", "shard": j, "nshards": nsh, "tier": tier}
@@ -395,10 +402,81 @@ def run_seedcase(case, res):
         res["v"].append({"msg": f"trace {case['trace']} cfg {case['cfg']}: result differs between PYTHONHASHSEED values {case['seeds']}: "
                                 f"{outs[0][:300]} vs {[o for o in outs if o != outs[0]][0][:300]}", "case": case})
 
+# ------------------------------------------------------------------ part 3: a used matcher / a used map object
+RCFGS = [dict(fam=f, ne=ne, avoid=True, width=w, max_dist=2.5) for f in ms.FAMS for ne in (False, True) for w in (None, 1)] + \
+        [dict(fam="D", ne=True, avoid=False, width=2, min_prob_norm=0.3, obs_noise_ne=2.0)]
+
+
+def run_reuse(case, res):
+    """'The same map, trace and configuration always produce the same result': a plain match(trace) on a matcher object
+    that went through ANY history of public calls before (other prefixes, extensions, widenings, jumps, another trace),
+    on a map object that answered all the queries of all the earlier histories of this case, must leave exactly the
+    lattice (and return exactly the result) that a fresh matcher on a freshly built map produces."""
+    from mc import histories as hs
+    graph = ps.graph_of(case)
+    pos = ps.pos_of(case)
+    egraph = ms.explicit(graph)
+    backend = case.get("backend", "inmem")
+    build = (lambda: maps.inmem(graph)) if backend == "inmem" else (lambda: maps.sqlite(graph))
+    mp = build()
+    outs = set()
+    if "trace" in case:
+        traces = [[tuple(p) for p in case["trace"]]]
+    elif isinstance(case["gs"], dict):
+        traces = special_trace_list(pos, graph)[:4]
+    else:
+        o = al.OBS[pos]
+        traces = [[o[0], o[1], o[2]], [o[1], al.FAR[pos], o[2]], [o[2], o[0], o[3]]]
+    cfgs = [case["cfg"]] if "cfg" in case else [c for c in RCFGS if backend == "inmem" or c["fam"] != "SN"]
+    try:
+        for trace in traces:
+            T = len(trace)
+            for c in cfgs:
+                refs = {}
+                if "hist" in case:
+                    hists = [case["hist"]]
+                else:
+                    hists = hs.all_histories(T, 2, c.get("width"), widths=(2, 3), allow_continue=True, allow_fresh=True)
+                    hists += [[["M", T], ["N"]], [["N"]], [["M", 1], ["X", T], ["N"]], [["M", T], ["C", None], ["X", T]]]
+                for hist in hists:
+                    m = ms.make_matcher(mp, c)
+                    for op in hist:
+                        hs.apply_op(m, trace, op)
+                        res["tr"] += 1
+                    try:
+                        got = ms.canon(m, m.match(list(trace)))
+                    except Exception as exc:  # noqa
+                        got = ("EXC", repr(exc))
+                    snap = ms.lattice_snapshot(m)
+                    w = m.max_lattice_width
+                    if w not in refs:
+                        mp0 = build()
+                        m0 = ms.make_matcher(mp0, dict(c, width=w))
+                        try:
+                            r0 = ms.canon(m0, m0.match(list(trace)))
+                        except Exception as exc:  # noqa
+                            r0 = ("EXC", repr(exc))
+                        refs[w] = (r0, ms.lattice_snapshot(m0))
+                        maps.close(mp0)
+                        res["tr"] += 1
+                    res["n"] += 1
+                    res["st"] += 1
+                    res["tv"] += 1
+                    res["nt"] += 1
+                    outs.add(got[:2])
+                    if (got, snap) != refs[w]:
+                        what = "result" if got != refs[w][0] else "lattice"
+                        res["v"].append({"msg": f"{al.describe_graph(graph)} ({backend}) trace {trace} cfg {c}: match(trace) after history {hist} on a used "
+                                                f"matcher/map gives a different {what} than a fresh matcher on a fresh map: {str(got[:3])[:300]} vs {str(refs[w][0][:3])[:300]}",
+                                         "case": {"kind": "reuse", "gs": egraph, "pos": pos, "trace": trace, "cfg": c, "hist": hist, "backend": backend}})
+    finally:
+        maps.close(mp)
+    res["out"] = sorted(set(res["out"]) | {repr(o) for o in outs})[:1000]
+
 
 def run_case(case):
     res = dict(n=0, st=0, tr=0, tv=0, nt=0, out=[], v=[], k=[])
-    {"order": run_order, "listing": run_listing, "seeds": run_seeds, "seedcase": run_seedcase}[case["kind"]](case, res)
+    {"order": run_order, "listing": run_listing, "seeds": run_seeds, "seedcase": run_seedcase, "reuse": run_reuse}[case["kind"]](case, res)
     res["v"] = res["v"][:20]
     return res
 
